@@ -19,6 +19,31 @@ theorem clean_operators_documented :
     cleanDistCmp = .lt ∧ cleanSelfExcluded = true ∧ cleanSortDescGreater = true ∧ cleanSortDescLower = false ∧
       cleanGroupsByFeature = true ∧ cleanPosFromGroup = true := by decide
 
+/-- the keep mask of one group starts all-true, `if keep[j]` guards the step, `keep[close] = False` removes,
+`iloc[keep]` selects the survivors in row order and the concatenation becomes `self.df` -/
+theorem clean_keep_mask_documented : cleanKeepMask = true := by decide
+
+/-- the signature defaults the statement relies on (the correspondence run omits these keywords in a share of the
+calls): `metric_id="score"`, `keep_greater=True` (greater is better unless lower is asked for), no `dist_mask`;
+`get_motl_subset(..., reset_index=True)`; `angles_order="zxz"`, `angles_numbering=0`, no cluster-size / particle-number
+limit, no mask, symmetry c1, nothing written -/
+theorem defaults_documented :
+    cleanDefaults = [("metric_id", "'score'"), ("keep_greater", "True"), ("dist_mask", "None")] ∧
+    subsetDefaults = [("feature_id", "'tomo_id'"), ("return_df", "False"), ("reset_index", "True")] ∧
+    peakDefaults = [("object_id", "None"), ("scores_threshold", "None"), ("sigma_threshold", "None"),
+      ("cluster_size", "None"), ("n_particles", "None"), ("output_path", "None"), ("output_type", "'emmotl'"),
+      ("angles_order", "'zxz'"), ("symmetry", "'c1'"), ("angles_numbering", "0"), ("tomo_mask", "None")] ∧
+    loadDefaults = [("angles_order", "'zxz'")] := by decide
+
+/-- the whole bodies of the six functions the statement runs through, as digests of their normalised dumps
+(statement kinds + expressions, local variables numbered in order of first binding; the dumps are printed below
+`end` in `Gen/C07.lean`): renaming a local variable leaves them unchanged, any added, removed or altered
+statement — also in a branch the correspondence run never executes — changes them -/
+theorem bodies_documented :
+    cleanByDistanceBody = ("321e5d7128fc83e9", 32) ∧ getMotlSubsetBody = ("54b0bc8ed0c0fcf1", 12) ∧
+    getCoordinatesBody = ("1c17071c5bf60581", 6) ∧ pointPairwiseDistBody = ("cd1e857698aa5590", 8) ∧
+    scoresExtractParticlesBody = ("a47dc5325b309818", 92) ∧ rotAnglesLoadBody = ("5dff8b11edc3d162", 20) := by decide
+
 /-- positions are `[x, y, z] + [shift_x, shift_y, shift_z]`; the distance is the Euclidean norm of the difference -/
 theorem position_documented :
     coordColumns = ["x", "y", "z"] ∧ shiftColumns = ["shift_x", "shift_y", "shift_z"] ∧ distIsEuclidNorm = true := by
@@ -125,24 +150,170 @@ theorem cleanByDistance_spec (feature : Field) (l : List (Particle α)) :
   ⟨clean_separated d kg _ (itemsOf_nodup feature l), clean_dominated d kg _ (itemsOf_nodup feature l),
     clean_remaining d kg _, clean_groups_independent d kg _⟩
 
-/-- the checker run on the implementation's output is sound for the clauses it tests -/
-theorem checkClean_sound (out : List (Item α)) (h : checkClean d kg items out = true) :
-    (∀ a ∈ out, a ∈ items) ∧ Separated d out ∧ Dominated d kg items out := by
-  unfold checkClean at h
-  simp only [Bool.and_eq_true, List.all_eq_true, List.contains_iff_mem, Bool.or_eq_true, beq_iff_eq, Bool.not_eq_eq_eq_not,
-    Bool.not_true, decide_eq_false_iff_not, List.any_eq_true, decide_eq_true_eq] at h
-  obtain ⟨⟨h1, h2⟩, h3⟩ := h
-  refine ⟨h1, ?_, ?_⟩
+/-- the checker, for any closeness relation `rel`: every clause it tests, stated over `rel` -/
+theorem checkCleanR_sound (rel : Item α → Item α → Bool) (out : List (Item α))
+    (h : checkCleanR rel kg items out = true) :
+    (∀ a ∈ out, a ∈ items) ∧ (out.map (·.idx)).Nodup ∧ Remaining items out ∧
+      (∀ a ∈ out, ∀ b ∈ out, a.idx ≠ b.idx → a.grp = b.grp → rel a b = false) ∧
+      (∀ r ∈ items, r ∉ out → ∃ k ∈ out, k.grp = r.grp ∧ rel k r = true ∧ BetterEq kg k.score r.score) := by
+  unfold checkCleanR at h
+  simp only [Bool.and_eq_true] at h
+  obtain ⟨⟨⟨⟨h1, hn⟩, ho⟩, h2⟩, h3⟩ := h
+  simp only [List.all_eq_true, List.contains_iff_mem, Bool.or_eq_true, beq_iff_eq, Bool.not_eq_eq_eq_not,
+    Bool.not_true, decide_eq_false_iff_not, List.any_eq_true, decide_eq_true_eq, Bool.and_eq_true] at h1 h2 h3
+  refine ⟨h1, nodupB_nodup _ hn, fun k => groupsInOrder_sublist items out ho k, ?_, ?_⟩
   · intro a ha b hb hne hg
     rcases h2 a ha b hb with (h | h) | h
     · exact absurd h hne
     · exact absurd hg h
-    · simpa [closer] using h
+    · exact h
   · intro r hr hout
     rcases h3 r hr with h | ⟨k, hk, ⟨hg, hc⟩, hs⟩
     · exact absurd h hout
-    · refine ⟨k, hk, hg, by simpa [closer] using hc, ?_⟩
+    · refine ⟨k, hk, hg, hc, ?_⟩
       cases kg <;> simpa [betterEq, BetterEq] using hs
+
+/-- **the checker run on the implementation's output is sound for every cleaning clause of the statement**:
+remaining rows are input rows, none twice, in input order within each group (`Remaining`), separated, and
+every removed row is dominated -/
+theorem checkClean_sound (out : List (Item α)) (h : checkClean d kg items out = true) :
+    (∀ a ∈ out, a ∈ items) ∧ Separated d out ∧ Dominated d kg items out ∧ Remaining items out ∧
+      (out.map (·.idx)).Nodup := by
+  obtain ⟨h1, hn, hr, h2, h3⟩ := checkCleanR_sound kg items (closer d) out h
+  refine ⟨h1, ?_, ?_, hr, hn⟩
+  · intro a ha b hb hne hg
+    simpa [closer] using h2 a ha b hb hne hg
+  · intro r hr' hout
+    obtain ⟨k, hk, hg, hc, hs⟩ := h3 r hr' hout
+    exact ⟨k, hk, hg, by simpa [closer] using hc, hs⟩
+
+/-- a result holding the same row twice is rejected (the index test of the checker is not vacuous) -/
+theorem checkClean_rejects_duplicate (rel : Item α → Item α → Bool) (a : Item α) (out : List (Item α)) (h : a ∈ out) :
+    checkCleanR rel kg items (a :: out) = false := by
+  have hn : nodupB ((a :: out).map (·.idx)) = false := by
+    by_contra hc
+    have := nodupB_nodup _ (by simpa using hc)
+    exact (List.nodup_cons.1 this).1 (List.mem_map.2 ⟨a, h, rfl⟩)
+  unfold checkCleanR
+  rw [hn]; simp
+
+/-- the other reading of an exact-distance tie (`dist ≤ d` counts as close): same clauses with `≤`.
+A list holding a pair at distance exactly `d` is reported only when *both* checkers reject it -/
+theorem checkCleanLe_sound (out : List (Item α)) (h : checkCleanLe d kg items out = true) :
+    (∀ a ∈ out, a ∈ items) ∧ (out.map (·.idx)).Nodup ∧ Remaining items out ∧
+      (∀ a ∈ out, ∀ b ∈ out, a.idx ≠ b.idx → a.grp = b.grp → ¬ dist2 a.pos b.pos ≤ d * d) ∧
+      (∀ r ∈ items, r ∉ out → ∃ k ∈ out, k.grp = r.grp ∧ dist2 k.pos r.pos ≤ d * d ∧ BetterEq kg k.score r.score) := by
+  obtain ⟨h1, hn, hr, h2, h3⟩ := checkCleanR_sound kg items (closerLe d) out h
+  refine ⟨h1, hn, hr, ?_, ?_⟩
+  · intro a ha b hb hne hg
+    simpa [closerLe] using h2 a ha b hb hne hg
+  · intro r hr' hout
+    obtain ⟨k, hk, hg, hc, hs⟩ := h3 r hr' hout
+    exact ⟨k, hk, hg, by simpa [closerLe] using hc, hs⟩
+
+/-- without a pair at distance exactly `d` inside a group the two readings are the same checker -/
+theorem checkClean_eq_checkCleanLe_of_no_tie (out : List (Item α))
+    (hno : ∀ a ∈ items, ∀ b ∈ items, dist2 a.pos b.pos ≠ d * d) (hsub : ∀ a ∈ out, a ∈ items) :
+    checkClean d kg items out = checkCleanLe d kg items out := by
+  have hrel : ∀ a ∈ items, ∀ b ∈ items, closer d a b = closerLe d a b := by
+    intro a ha b hb
+    unfold closer closerLe
+    rcases lt_trichotomy (dist2 a.pos b.pos) (d * d) with h | h | h
+    · simp [h, le_of_lt h]
+    · exact absurd h (hno a ha b hb)
+    · simp [not_lt_of_gt h, not_le_of_gt h]
+  have hS : (out.all fun a => out.all fun b => a.idx == b.idx || !decide (a.grp = b.grp) || !closer d a b) =
+      (out.all fun a => out.all fun b => a.idx == b.idx || !decide (a.grp = b.grp) || !closerLe d a b) := by
+    apply all_congr_mem; intro a ha
+    apply all_congr_mem; intro b hb
+    rw [hrel a (hsub a ha) b (hsub b hb)]
+  have hD : (items.all fun r => out.contains r ||
+        out.any fun k => decide (k.grp = r.grp) && closer d k r && betterEq kg k.score r.score) =
+      (items.all fun r => out.contains r ||
+        out.any fun k => decide (k.grp = r.grp) && closerLe d k r && betterEq kg k.score r.score) := by
+    apply all_congr_mem; intro r hr
+    congr 1
+    apply any_congr_mem; intro k hk
+    rw [hrel k (hsub k hk) r hr]
+  simp only [checkClean, checkCleanLe, checkCleanR, hS, hD]
+
+/-! #### groups never affect each other, as a statement about *any* claimed result -/
+
+/-- the cleaning clauses for the rows of group `k` alone -/
+def GroupSpec (k : α) (out : List (Item α)) : Prop :=
+  (∀ a ∈ restrict k out, a ∈ restrict k items) ∧ Separated d (restrict k out) ∧
+    Dominated d kg (restrict k items) (restrict k out)
+
+/-- **the clauses decompose over the groups**: a result meets membership, separation and domination for the
+whole list exactly when, for every group value `k`, the rows of group `k` that remain meet them for the list
+consisting of group `k` alone. No row of another group enters the verdict on group `k` -/
+theorem spec_iff_groups (out : List (Item α)) :
+    ((∀ a ∈ out, a ∈ items) ∧ Separated d out ∧ Dominated d kg items out) ↔ ∀ k, GroupSpec d kg items k out := by
+  constructor
+  · rintro ⟨hm, hs, hd⟩ k
+    refine ⟨?_, ?_, ?_⟩
+    · intro a ha
+      rw [mem_restrict] at ha ⊢
+      exact ⟨hm a ha.1, ha.2⟩
+    · intro a ha b hb
+      exact hs a ((mem_restrict k out a).1 ha).1 b ((mem_restrict k out b).1 hb).1
+    · intro r hr hout
+      rw [mem_restrict] at hr
+      have hro : r ∉ out := fun h => hout ((mem_restrict k out r).2 ⟨h, hr.2⟩)
+      obtain ⟨c, hc, hg, hcl, hb⟩ := hd r hr.1 hro
+      exact ⟨c, (mem_restrict k out c).2 ⟨hc, hg.trans hr.2⟩, hg, hcl, hb⟩
+  · intro h
+    refine ⟨?_, ?_, ?_⟩
+    · intro a ha
+      exact ((mem_restrict _ items a).1 ((h a.grp).1 a ((mem_restrict _ out a).2 ⟨ha, rfl⟩))).1
+    · intro a ha b hb hne hg
+      exact (h a.grp).2.1 a ((mem_restrict _ out a).2 ⟨ha, rfl⟩) b ((mem_restrict _ out b).2 ⟨hb, hg.symm⟩) hne hg
+    · intro r hr hout
+      have hro : r ∉ restrict r.grp out := fun hh => hout ((mem_restrict _ out r).1 hh).1
+      obtain ⟨c, hc, hg, hcl, hb⟩ := (h r.grp).2.2 r ((mem_restrict _ items r).2 ⟨hr, rfl⟩) hro
+      exact ⟨c, ((mem_restrict _ out c).1 hc).1, hg, hcl, hb⟩
+
+/-- the per-group verdicts of the driver (`checkGroups`, the checker applied to each group's sub-list) are
+sound: if every group passes, every group meets the clauses on its own, hence (by `spec_iff_groups`) so does
+the whole list -/
+theorem checkIndependent_sound (out : List (Item α)) (h : checkIndependent (closer d) kg items out = true) :
+    (∀ k, GroupSpec d kg items k out) ∧ ∀ k, Remaining (restrict k items) (restrict k out) := by
+  unfold checkIndependent checkGroups at h
+  simp only [Bool.and_eq_true, List.all_eq_true, List.contains_iff_mem, List.mem_map, forall_exists_index, and_imp,
+    forall_apply_eq_imp_iff₂] at h
+  obtain ⟨hm, hg⟩ := h
+  have key : ∀ k, k ∈ items.map (·.grp) → checkClean d kg (restrict k items) (restrict k out) = true := by
+    intro k hk
+    exact hg k ((mem_groupKeys _ k).2 hk)
+  have hempty : ∀ k, k ∉ items.map (·.grp) → restrict k out = [] := by
+    intro k hk
+    unfold restrict
+    rw [List.filter_eq_nil_iff]
+    intro it hit
+    simp only [decide_eq_true_eq]
+    intro e; exact hk (List.mem_map.2 ⟨it, hm it hit, e⟩)
+  have hempty' : ∀ k, k ∉ items.map (·.grp) → restrict k items = [] := by
+    intro k hk
+    unfold restrict
+    rw [List.filter_eq_nil_iff]
+    intro it hit
+    simp only [decide_eq_true_eq]
+    intro e; exact hk (List.mem_map.2 ⟨it, hit, e⟩)
+  constructor
+  · intro k
+    by_cases hk : k ∈ items.map (·.grp)
+    · obtain ⟨h1, h2, h3, _, _⟩ := checkClean_sound d kg (restrict k items) (restrict k out) (key k hk)
+      exact ⟨h1, h2, h3⟩
+    · unfold GroupSpec Separated Dominated
+      rw [hempty k hk, hempty' k hk]
+      refine ⟨?_, ?_, ?_⟩
+      · intro a ha; cases ha
+      · intro a ha; cases ha
+      · intro r hr; cases hr
+  · intro k
+    by_cases hk : k ∈ items.map (·.grp)
+    · exact (checkClean_sound d kg (restrict k items) (restrict k out) (key k hk)).2.2.2.1
+    · rw [hempty k hk]; intro k'; simp [restrict]
 
 /-- a single-group list is cleaned by one greedy pass -/
 theorem clean_single_group (k : α) (hne : items ≠ []) (h : ∀ it ∈ items, it.grp = k) :
@@ -228,6 +399,14 @@ theorem peaks_cover (out : List (Peak α)) (h : extractFrom thr dn dd vs al nb o
   unfold inBall at hb
   simpa only [decide_eq_true_eq] using hb
 
+/-- an angle-map entry below the numbering (e.g. 0 with numbering 1) points to no row of the angle list: the model
+has no peak for such a voxel (numpy would wrap the negative index to the end of the list; such maps are outside
+the quantifier and are never generated) -/
+theorem peakOf_below_numbering (rows : List (List α)) (v : Vox α) (h : v.ang < nb) : peakOf rows nb v = none := by
+  unfold peakOf
+  have : v.ang - nb < 0 := by omega
+  simp [this]
+
 /-- `None` is returned exactly when no voxel exceeds the threshold -/
 theorem peaks_none_iff : extractFrom thr dn dd vs al nb ord = .empty ↔ ∀ v ∈ vs, ¬ thr < v.score :=
   extractFrom_empty thr dn dd vs al nb ord
@@ -291,6 +470,30 @@ example : checkClean (2 : Int) true
     [⟨1, 1, 9, ⟨1, 0, 0⟩⟩, ⟨3, 2, 1, ⟨1, 0, 0⟩⟩] = true := by decide
 
 example : (([⟨0, 1, 5, ⟨0, 0, 0⟩⟩, ⟨1, 1, 9, ⟨1, 0, 0⟩⟩] : List (Item Int)).map (·.idx)).Nodup := by decide
+
+/-- the same row twice is rejected; rows of a group out of input order are rejected -/
+example : checkClean (2 : Int) true [⟨0, 1, 5, ⟨0, 0, 0⟩⟩, ⟨1, 1, 9, ⟨9, 0, 0⟩⟩]
+    [⟨0, 1, 5, ⟨0, 0, 0⟩⟩, ⟨0, 1, 5, ⟨0, 0, 0⟩⟩, ⟨1, 1, 9, ⟨9, 0, 0⟩⟩] = false := by decide
+example : checkClean (2 : Int) true [⟨0, 1, 5, ⟨0, 0, 0⟩⟩, ⟨1, 1, 9, ⟨9, 0, 0⟩⟩]
+    [⟨1, 1, 9, ⟨9, 0, 0⟩⟩, ⟨0, 1, 5, ⟨0, 0, 0⟩⟩] = false := by decide
+example : checkClean (2 : Int) true [⟨0, 1, 5, ⟨0, 0, 0⟩⟩, ⟨1, 1, 9, ⟨9, 0, 0⟩⟩]
+    [⟨0, 1, 5, ⟨0, 0, 0⟩⟩, ⟨1, 1, 9, ⟨9, 0, 0⟩⟩] = true := by decide
+
+/-- a pair at distance exactly d = 2: keeping both is right under `<`, keeping only the better one is right under
+`≤`; removing the better one is wrong under both readings (only that is reported) -/
+example : checkClean (2 : Int) true [⟨0, 1, 5, ⟨0, 0, 0⟩⟩, ⟨1, 1, 9, ⟨2, 0, 0⟩⟩]
+    [⟨0, 1, 5, ⟨0, 0, 0⟩⟩, ⟨1, 1, 9, ⟨2, 0, 0⟩⟩] = true := by decide
+example : checkCleanLe (2 : Int) true [⟨0, 1, 5, ⟨0, 0, 0⟩⟩, ⟨1, 1, 9, ⟨2, 0, 0⟩⟩] [⟨1, 1, 9, ⟨2, 0, 0⟩⟩] = true := by decide
+example : checkClean (2 : Int) true [⟨0, 1, 5, ⟨0, 0, 0⟩⟩, ⟨1, 1, 9, ⟨2, 0, 0⟩⟩] [⟨0, 1, 5, ⟨0, 0, 0⟩⟩] = false ∧
+    checkCleanLe (2 : Int) true [⟨0, 1, 5, ⟨0, 0, 0⟩⟩, ⟨1, 1, 9, ⟨2, 0, 0⟩⟩] [⟨0, 1, 5, ⟨0, 0, 0⟩⟩] = false := by decide
+
+/-- per-group verdicts (the checker applied to a group's own sub-list): group 2 lost its best particle -/
+example : checkClean (2 : Int) true
+    (restrict 2 [⟨0, 1, 5, ⟨0, 0, 0⟩⟩, ⟨1, 2, 9, ⟨1, 0, 0⟩⟩, ⟨2, 2, 3, ⟨5, 0, 0⟩⟩])
+    (restrict 2 [⟨0, 1, 5, ⟨0, 0, 0⟩⟩, ⟨2, 2, 3, ⟨5, 0, 0⟩⟩]) = false ∧
+  checkClean (2 : Int) true
+    (restrict 1 [⟨0, 1, 5, ⟨0, 0, 0⟩⟩, ⟨1, 2, 9, ⟨1, 0, 0⟩⟩, ⟨2, 2, 3, ⟨5, 0, 0⟩⟩])
+    (restrict 1 [⟨0, 1, 5, ⟨0, 0, 0⟩⟩, ⟨2, 2, 3, ⟨5, 0, 0⟩⟩]) = true := by decide
 
 /-- a processing order that is non-increasing in score, with a tie -/
 example : ([(9, 0), (7, 1), (7, 2), (5, 3)] : List (Int × Nat)).Pairwise (fun a b => b.1 ≤ a.1) := by decide
